@@ -372,7 +372,7 @@ func (w *l1World) genOp(spec *modelL1, bc blockCtx) (sdk.Msg, string, string) {
 		amt := w.genAmount(spec.Bal.get(sa, d))
 		to := w.pickUser()
 		if w.r.Chance(1, 5) {
-			to = []string{"0x1", "init1malformed", "l2-user-🙂", strings.Repeat("a", 200)}[w.r.Intn(4)]
+			to = []string{"0x1", "init1malformed", "l2-user-🙂", strings.Repeat("a", 200), " ", "\t", " l2_addr", "l2_addr\u00a0 "}[w.r.Intn(8)]
 		}
 		var data []byte
 		if w.r.Chance(1, 3) {
@@ -405,6 +405,9 @@ func (w *l1World) genOp(spec *modelL1, bc blockCtx) (sdk.Msg, string, string) {
 			prevBlk = o.L2Block
 		}
 		l2 := prevBlk + 1 + uint64(w.r.Intn(10))
+		if w.burstBridge == 0 && w.r.Chance(1, 40) {
+			l2 = ^uint64(0) - uint64(w.r.Intn(2)) // the greatest L2 block numbers: nothing can follow the last one
+		}
 		if b.NextOutIdx == 1 && w.r.Chance(1, 6) {
 			l2 = 0 // an output committing to the L2 genesis block
 		}
@@ -595,6 +598,7 @@ func (w *l1World) genRoot(spec *modelL1, b *mBridge) (prover.Hash, string) {
 	}
 	dup := w.r.Chance(1, 2)
 	t := prover.Build(hs, dup)
+	w.liftTree(t)
 	c := &commitment{Version: []byte{0, 1, 0, 1, 2, 3, 0x7f, 0xff}[w.r.Intn(8)], Storage: t.Root(), BlockHash: w.randHash(), Tree: t, Leaves: leaves}
 	root := prover.OutputRoot(c.Version, c.Storage, c.BlockHash)
 	w.commits[root] = c
@@ -673,11 +677,15 @@ func (w *l1World) genClaim(spec *modelL1, bc blockCtx) (sdk.Msg, string) {
 	}
 	var tags []string
 	for k := 0; k < np; k++ {
-		pick := w.r.Intn(23)
+		pick := w.r.Intn(24)
 		if spec.Bal.get(prover.Escrow(b.ID), msg.Amount.Denom).BitLen() > 64 && w.r.Chance(1, 3) {
 			pick = 10 // the escrow could afford amount + 2^64: aim there
 		}
 		switch pick {
+		case 23:
+			// the bridge's own L2 name of the token instead of the L1 denom
+			msg.Amount.Denom = prover.L2Denom(b.ID, msg.Amount.Denom)
+			tags = append(tags, "l2-denom-for-l1-denom")
 		case 21:
 			// a fixed-size field one or more bytes too long / one byte short (the commitment is over exactly 1+32+32 bytes)
 			ext := func(bz []byte) []byte {
@@ -1515,4 +1523,28 @@ func (w *l1World) altProposal(raw [][]byte) [][]byte {
 	}
 	w.r.Fault("aborted-optimistic-execution.different-proposal")
 	return alt
+}
+
+// liftTree: in some commitments the withdrawals sit deep inside a much larger tree (proof lengths around and
+// beyond 16, 32 and 64) whose other subtrees are only known by their hashes.
+func (w *l1World) liftTree(t *prover.Tree) {
+	var k int
+	switch w.r.Weighted([]int{14, 4, 1, 1}) {
+	case 0:
+		return
+	case 1:
+		k = 1 + w.r.Intn(3)
+	case 2:
+		k = 13 + w.r.Intn(6)
+	default:
+		k = 58 + w.r.Intn(10)
+	}
+	sibs := make([]prover.Hash, k)
+	for i := range sibs {
+		sibs[i] = w.randHash()
+	}
+	t.Lift(sibs)
+	if k > 10 {
+		w.r.Probe("claim.deep-tree")
+	}
 }
